@@ -27,10 +27,11 @@
     `NonNull(NonNull(_))`, `assert_name` / `assert_enum_value_name` on every dict key.
   Not modelled (answered `.unmodelled`, never silently): duplicate keys in a dict display, objects
   other than constants as default/enum values, an input-object keyword set applied to an object
-  constructor.  The order of `schema.type_map` produced by graphql-core's type collection is NOT
-  modelled: the result lists the types in type-map-dict order (the harness oracle checks on the
-  real objects that the collection reproduces the source order).  Constants are taken at face
-  value: `eval (repr c) = c` is the assumed law of the trusted base (sampled by the harness).
+  constructor.  The result lists the types in type-map-dict order; that graphql-core's type
+  collection keeps the user's types in that order is Spec/GqlCollect.lean + `C16.type_map_order`
+  (and the harness oracle checks it on the real objects).  Constants are taken at face value here:
+  that the text `repr` writes for a constant denotes it again is Model/PyRepr.lean +
+  Spec/PyLiteral.lean + `C16.literal_roundtrip` (formerly the assumed law `eval (repr c) = c`).
   When several errors coexist only the class of the first one in (approximate) evaluation order
   is meaningful.
 
